@@ -49,6 +49,16 @@ def gen_spec(rng):
           'fused': rng.random() < 0.6, 'num_threads': 0}
   if spec['agg'] is not None and rng.random() < 0.3:
     spec['agg2'] = rng.choice(['sum', 'collect'])  # two aggregating stages
+  r = rng.random()
+  if r < 0.25:
+    spec['source'] = 'rr'
+  if rng.random() < 0.25:
+    # worker-side threads: fan-out over sub-shards of the worker's shard, or a
+    # shared upstream iterator for the apply stage
+    if rng.random() < 0.5:
+      spec['source_threads'] = rng.randint(1, 3)
+    else:
+      spec['num_threads'] = rng.randint(1, 3)
   return spec
 
 
